@@ -50,6 +50,10 @@ pub struct PoolSpec {
     pub automatic_sharding_key: Option<String>,
     pub plugins: bool,
     pub auth_query: bool,
+    /// which of the three auth_query settings are written when `auth_query` is false: 0 none, 1 user + password only,
+    /// 2 query only, 3 query + user; with 4..7 the same at [general] level (first pool decides)
+    #[serde(default)]
+    pub auth_query_partial: u8,
 }
 
 #[derive(Clone, Debug, Serialize, Deserialize)]
@@ -113,11 +117,11 @@ fn pool_strategy() -> BoxedStrategy<PoolSpec> {
             6 => prop_oneof![Just("any"), Just("primary"), Just("replica")].prop_map(|s| Some(s.to_string())),
             1 => prop_oneof![Just("master"), Just("Primary"), Just("ANY"), Just("auto"), Just("")].prop_map(|s| Some(s.to_string())),
         ],
-        (any::<bool>(), prop::bool::weighted(0.3), prop::bool::weighted(0.15), prop::bool::weighted(0.1)),
+        (any::<bool>(), prop::bool::weighted(0.3), prop::bool::weighted(0.15), prop::bool::weighted(0.1), prop_oneof![10 => Just(0u8), 3 => 1u8..8]),
         prop_oneof![12 => Just(None), 3 => Just(Some(r"/\* sharding_key: (\d+) \*/".to_string())), 1 => Just(Some("(unclosed".to_string()))],
         prop_oneof![12 => Just(None), 3 => Just(Some("data.id".to_string())), 1 => Just(Some("id".to_string())), 1 => Just(Some("a.b.c".to_string()))],
     )
-        .prop_map(|((ids, roles, users), default_shard, default_role, (parser, splitting, plugins, auth_query), sharding_key_regex, automatic_sharding_key)| {
+        .prop_map(|((ids, roles, users), default_shard, default_role, (parser, splitting, plugins, auth_query, auth_query_partial), sharding_key_regex, automatic_sharding_key)| {
             let shards = ids
                 .iter()
                 .enumerate()
@@ -140,7 +144,7 @@ fn pool_strategy() -> BoxedStrategy<PoolSpec> {
             }).collect();
             // splitting and plugins need the parser; leave a small fraction inconsistent on purpose
             let parser = parser || ((splitting || plugins) && ids.len() % 7 != 3);
-            PoolSpec { shards, users, default_shard, default_role, parser, splitting, sharding_key_regex, automatic_sharding_key, plugins, auth_query }
+            PoolSpec { shards, users, default_shard, default_role, parser, splitting, sharding_key_regex, automatic_sharding_key, plugins, auth_query, auth_query_partial: if auth_query { 0 } else { auth_query_partial } }
         })
         .boxed()
 }
@@ -178,6 +182,13 @@ pub fn heal(mut c: Case) -> Case {
         if let Some(r) = &p.default_role {
             if !["any", "primary", "replica"].contains(&r.as_str()) {
                 p.default_role = Some("any".into());
+            }
+        }
+        // (an auth_query without its credentials is one of the must-reject classes)
+        if matches!(p.auth_query_partial, 2 | 3 | 6 | 7) {
+            p.auth_query_partial -= 1;
+            if p.auth_query_partial % 4 == 2 {
+                p.auth_query_partial -= 1;
             }
         }
         for u in p.users.iter_mut() {
@@ -255,8 +266,15 @@ pub fn must_reject(c: &Case) -> Option<String> {
                 return Some(format!("pool{}: default_role {:?}", pi, r));
             }
         }
-        if !p.auth_query && p.users.iter().any(|u| !u.password) {
+        // effective auth_query settings of the pool: its own, else those of [general]
+        let (pq, pu, pp) = aq_parts_pool(p);
+        let (gq, gu, gp) = aq_parts_general(c);
+        let (q, u, pw) = (pq || gq, pu || gu, pp || gp);
+        if !(q && u && pw) && p.users.iter().any(|u| !u.password) {
             return Some(format!("pool{}: a user without password and no auth_query", pi));
+        }
+        if q && !(u && pw) {
+            return Some(format!("pool{}: auth_query without its user and password", pi));
         }
     }
     None
@@ -281,6 +299,30 @@ pub fn specs_for(c: &Case) -> Vec<BackendSpec> {
 }
 
 /// Build the TOML for a case given (ip, port) per mock in `specs_for` order (or placeholders).
+/// (auth_query, auth_query_user, auth_query_password) written in the pool's own section
+fn aq_parts_pool(p: &PoolSpec) -> (bool, bool, bool) {
+    if p.auth_query {
+        return (true, true, true);
+    }
+    match p.auth_query_partial {
+        1 => (false, true, true),
+        2 => (true, false, false),
+        3 => (true, true, false),
+        _ => (false, false, false),
+    }
+}
+
+/// ... and in [general] (decided by the first pool's spec)
+fn aq_parts_general(c: &Case) -> (bool, bool, bool) {
+    match c.pools.first().map(|p| if p.auth_query { 0 } else { p.auth_query_partial }).unwrap_or(0) {
+        4 => (true, true, true),
+        5 => (false, true, true),
+        6 => (true, false, false),
+        7 => (true, true, false),
+        _ => (false, false, false),
+    }
+}
+
 pub fn build_config(c: &Case, addr: &[(String, u16)]) -> PgcatConfig {
     let mut cfg = PgcatConfig::new();
     cfg.set_general("connect_timeout", "1500");
@@ -306,10 +348,27 @@ pub fn build_config(c: &Case, addr: &[(String, u16)]) -> PgcatConfig {
         if let Some(k) = &p.automatic_sharding_key {
             settings.push(("automatic_sharding_key".into(), crate::pgc::toml_str(k)));
         }
-        if p.auth_query {
+        let (aq_q, aq_u, aq_p) = aq_parts_pool(p);
+        if aq_q {
             settings.push(("auth_query".into(), "\"SELECT usename, passwd FROM pg_shadow WHERE usename='$1'\"".into()));
+        }
+        if aq_u {
             settings.push(("auth_query_user".into(), "\"aq_user\"".into()));
+        }
+        if aq_p {
             settings.push(("auth_query_password".into(), "\"aq_pw\"".into()));
+        }
+        if pi == 0 {
+            let (gq, gu, gp) = aq_parts_general(c);
+            if gq {
+                cfg.set_general("auth_query", "\"SELECT usename, passwd FROM pg_shadow WHERE usename='$1'\"");
+            }
+            if gu {
+                cfg.set_general("auth_query_user", "\"aq_user\"");
+            }
+            if gp {
+                cfg.set_general("auth_query_password", "\"aq_pw\"");
+            }
         }
         let users = p
             .users
@@ -377,7 +436,7 @@ impl Part for LibPart {
         false
     }
     fn rule(&self) -> String {
-        "configuration grammar -> TOML: 1..2 pools, 1..2 users (with/without password, min_pool_size), shard id sets {0..n-1 for n<=4 and n=11..12, not starting at 0, gaps, leading zeros, duplicate values, '+1', negative, non-numeric}, server lists {primary, primary+replica, replicas only, empty, two primaries, duplicated server}, default_shard {absent, shard_N in/out of range, random, random_healthy, junk}, default_role {valid, junk, wrong case}, parser/splitting/plugins flags, regexes valid/invalid, automatic_sharding_key forms, auth_query; oracle: the verdict of Config deserialisation + validate() must be 'reject' for every configuration in the model's must-reject classes. Non-trivial = shard ids not exactly 0..n-1, several pools/users, or a non-default default_shard".into()
+        "configuration grammar -> TOML: 1..2 pools, 1..2 users (with/without password, min_pool_size), shard id sets {0..n-1 for n<=4 and n=11..12, not starting at 0, gaps, leading zeros, duplicate values, '+1', negative, non-numeric}, server lists {primary, primary+replica, replicas only, empty, two primaries, duplicated server}, default_shard {absent, shard_N in/out of range, random, random_healthy, junk}, default_role {valid, junk, wrong case}, parser/splitting/plugins flags, regexes valid/invalid, automatic_sharding_key forms, auth_query complete or partial (user + password only, query only, query + user) at pool or [general] level; oracle: the verdict of Config deserialisation + validate() must be 'reject' for every configuration in the model's must-reject classes. Non-trivial = shard ids not exactly 0..n-1, several pools/users, or a non-default default_shard".into()
     }
     fn cases(&self, tier: Tier) -> u64 {
         tier.pick(80_000, 1_200_000)
